@@ -52,8 +52,109 @@ def _strip(e):
 
 
 def run(ctx):
-    for r in (_r1, _r2, _r3, _r4, _r5, _r6, _r7, _r8):
+    for r in (_r1, _r2, _r3, _r4, _r5, _r6, _r7, _r8, _r9, _r10):
         ctx.attempt(r)
+
+
+def _float_normalised(prog, fi, e, depth=0):
+    """Is the array expression known to have a floating element type?"""
+    if depth > 4:
+        return False
+    if isinstance(e, ast.UnaryOp):
+        return _float_normalised(prog, fi, e.operand, depth)
+    if isinstance(e, ast.Call):
+        fn = call_name(e) or ""
+        dt = next((k.value for k in e.keywords if k.arg == "dtype"), None)
+        if dt is not None and norm_text(dt) in ("np.float64", "np.double", "float", "np.float_", "'float64'", "np.longdouble"):
+            return True
+        if isinstance(e.func, ast.Attribute) and e.func.attr == "astype" and e.args and norm_text(e.args[0]) in ("float", "np.float64", "np.double"):
+            return True
+        for k in prog.resolve_call(fi, e):
+            callee = prog.functions.get(k)
+            if callee is not None:
+                rets = [r for r in walk_function(callee.node) if isinstance(r, ast.Return) and r.value is not None]
+                if rets and all(_float_normalised(prog, callee, r.value, depth + 1) for r in rets):
+                    return True
+        return False
+    if isinstance(e, ast.Attribute):
+        return False
+    if isinstance(e, ast.Name):
+        defs = [st for st in walk_function(fi.node) if isinstance(st, ast.Assign) and
+                any(isinstance(t, ast.Name) and t.id == e.id for t in st.targets)]
+        if defs:
+            return all(_float_normalised(prog, fi, d.value, depth + 1) for d in defs)
+        tdefs = [st for st in walk_function(fi.node) if isinstance(st, ast.Assign) and isinstance(st.targets[0], ast.Tuple) and
+                 any(isinstance(t, ast.Name) and t.id == e.id for t in st.targets[0].elts)]
+        for st in tdefs:
+            # q, wc = transformed.broadcast(x): q has the element type of x
+            v = st.value
+            if isinstance(v, ast.Call) and isinstance(v.func, ast.Attribute) and v.func.attr == "broadcast" and v.args and \
+                    st.targets[0].elts[0].id == e.id:
+                return _float_normalised(prog, fi, v.args[0], depth + 1)
+            return False
+        if e.id in fi.params:
+            # parameter of a private helper: every call site must pass a float-normalised array
+            if not fi.name.startswith("_"):
+                return False
+            i = fi.params.index(e.id)
+            sites = []
+            for k2, f2 in prog.functions.items():
+                for c in calls_in(f2.node):
+                    if fi.key in prog.resolve_call(f2, c):
+                        off = 1 if fi.params and fi.params[0] == "self" else 0
+                        if i - off < len(c.args):
+                            sites.append((f2, c.args[i - off]))
+            return bool(sites) and all(_float_normalised(prog, f2, a, depth + 1) for f2, a in sites)
+    return False
+
+
+def _r9(ctx):
+    prog = ctx.prog
+    ctx.rule("R-C08-9", floor=2, what="result arrays shaped like an input get a floating element type (integer input must not truncate slopes/cycles)")
+    ci = prog.cls(WC)
+    n = 0
+    for name, defs in ci.methods.items():
+        fi = defs[-1]
+        for c in calls_in(fi.node):
+            fn = call_name(c) or ""
+            if fn in ("np.full_like", "np.zeros_like", "np.empty_like", "np.ones_like") and c.args:
+                n += 1
+                dt = next((k.value for k in c.keywords if k.arg == "dtype"), None)
+                if dt is not None and norm_text(dt) in ("np.double", "np.float64", "float", "np.float_"):
+                    ctx.holds(fi, c, "%s(..., dtype=%s)" % (fn, norm_text(dt)))
+                elif dt is None and _float_normalised(prog, fi, c.args[0]):
+                    ctx.holds(fi, c, "%s of an array that was converted to float before" % fn)
+                else:
+                    ctx.violated(fi, c, "%s takes the element type of %s, which can be an integer input: slopes / cycle numbers "
+                                 "stored into it are truncated, so integer and float arguments give different results" %
+                                 (norm_text(c)[:70], norm_text(c.args[0])))
+    if n < 2:
+        raise AnalysisError("expected >= 2 *_like constructions in WoehlerCurve, found %d" % n)
+
+
+def _r10(ctx):
+    prog = ctx.prog
+    ctx.rule("R-C08-10", floor=10, what="no method other than the constructor writes into the curve data of the object it is called on")
+    eff = Effects(prog)
+    base = prog.cls(WC)
+    for ci in [base] + prog.subclasses(base.key):
+        for name, defs in ci.methods.items():
+            f = defs[-1]
+            if name in ("__init__", "_validate") or f.is_setter():
+                continue
+            summ = eff.summary(f)
+            if summ is None:
+                raise AnalysisError("effect summary of %s unavailable" % f.key)
+            # the broadcaster's paired temporary re-coding (restored on every normal path, decided by C13) is not a write
+            bad = [e for e in summ["effects"] if e.origin == ("self", "_obj") and
+                   not e.func.startswith("pylife.core.broadcaster:")]
+            if bad:
+                e = bad[0]
+                node = next((st for st in walk_function(f.node) if isinstance(st, ast.stmt) and st.lineno == e.lineno), f.node)
+                ctx.violated(f, node, "%s.%s writes into the curve data of the object it is called on (%s at line %d): the original "
+                             "curve is altered" % (ci.name, name, e.kind, e.lineno), text="%s.%s %s" % (ci.name, name, e.kind))
+            else:
+                ctx.holds(f, f.node, "%s.%s leaves the curve data untouched" % (ci.name, name))
 
 
 def _r1(ctx):
@@ -688,6 +789,33 @@ def variants():
         f.body[-1].value.args = [f.body[-1].value.args[0]]
         return True
     out.append(witness("load() drops the failure probability", WP, deleg, "R-C08-8"))
+
+    def like_dtype(tree):
+        f = find_func(tree, "WoehlerCurve._make_k")
+        for c in calls_in(f, name="np.full_like"):
+            c.keywords = [k for k in c.keywords if k.arg != "dtype"]
+        return True
+    out.append(witness("full_like without dtype in _make_k", WP, like_dtype, "R-C08-9"))
+
+    def no_float_norm(tree):
+        f = find_func(tree, "WoehlerCurve.basquin_cycles")
+        for st in list(f.body):
+            if isinstance(st, ast.Assign) and isinstance(st.value, ast.Call) and isinstance(st.value.func, ast.Name) and \
+                    st.value.func.id == "ensure_float_to_prevent_int_overflow":
+                f.body.remove(st)
+                return True
+        return False
+    out.append(witness("load no longer converted to float before full_like", WP, no_float_norm, "R-C08-9"))
+
+    def transform_inplace(tree):
+        f = find_func(tree, "WoehlerCurve.transform_to_failure_probability")
+        for st in f.body:
+            if isinstance(st, ast.Assign) and isinstance(st.value, ast.Call) and isinstance(st.value.func, ast.Attribute) and \
+                    st.value.func.attr == "copy" and isinstance(st.targets[0], ast.Name):
+                st.value = parse_expr("self._obj")
+                return True
+        return False
+    out.append(witness("probability transform writes into the curve itself", WP, transform_inplace, "R-C08-10"))
 
     # twins
     def haibach_eq(tree):
